@@ -79,9 +79,22 @@ def evaluate(case, rec):
     n_fixed = 0
     totalcap_given = e['totalcapcost'].valid and e['totalcapcost'].provided
     totaloam_given = e['oamtotalfixed'].valid and e['oamtotalfixed'].provided
+    def supplied(p):
+        # judged on the input text, not on the flags the reader sets (a figure the user typed is supplied even when it equals
+        # the declared default): a bare in-range number for this parameter
+        if p.name not in pd:
+            return p.provided and p.valid
+        try:
+            v = float(str(pd[p.name]).split()[0])
+        except ValueError:
+            return False
+        if len(str(pd[p.name]).split()) > 1:
+            return p.provided and p.valid  # written with a unit: C06's subject
+        return float(p.min) <= v <= float(p.max) and close(v, p.value)
+
     for pin, pout in pairs:
         p = e[pin]
-        if p.provided and p.valid:
+        if supplied(p):
             n_fixed += 1
             computed = True
             if pout in ('Cexpl',) and totalcap_given:
@@ -90,6 +103,17 @@ def evaluate(case, rec):
                 computed = False
             if computed and not close(e[pout].value, p.value):
                 bad('user_component_not_used', {'input': p.name, 'supplied': p.value, 'reported': e[pout].value}, comp=pout)
+    # end-use equipment figures (district network, chiller, heat pump)
+    for pin, pout, plants in (('dhtotaldistrictnetworkcost', 'dhdistrictcost', ('7',)), ('dhoandmcost', 'dhdistrictoandmcost', ('7',)),
+                              ('chillercapex', 'chillercapex', ('5',)), ('chilleropex', 'chilleropex', ('5',)),
+                              ('heatpumpcapex', 'heatpumpcapex', ('6',))):
+        if pin in e and pout in e and plant in plants and enduse == '2' and e[pin].name in pd and supplied(e[pin]):
+            total_hides = (totalcap_given and pout in ('dhdistrictcost', 'chillercapex', 'heatpumpcapex')) or \
+                (totaloam_given and pout in ('dhdistrictoandmcost', 'chilleropex'))
+            n_fixed += 1
+            want = float(str(pd[e[pin].name]).split()[0])
+            if not total_hides and not close(e[pout].value, want):
+                bad('user_component_not_used', {'input': e[pin].name, 'supplied': want, 'reported': e[pout].value}, comp=pout)
     # per-well costs
     ppw, piw = e['per_production_well_cost'], e['per_injection_well_cost']
     c1p, c1i = e['cost_one_production_well'].value, e['cost_one_injection_well'].value
